@@ -40,7 +40,7 @@ import (
 
 type c36Reply struct {
 	From    int    `json:"from"`    // sender index (small pool => repeated senders); 10 = the node's own name, 11 = empty name
-	Kind    int    `json:"kind"`    // 0 valid member, 1 wrong type byte, 2 garbage behind the right type byte, 3 empty payload, 4 encoded nil member, 5 genuine: answered by a real responder node
+	Kind    int    `json:"kind"`    // 0 valid member, 1 wrong type byte, 2 garbage behind the right type byte, 3 empty payload, 4 encoded nil member, 5 genuine: answered by a real responder node, 6 valid record that leaves address and port out (names nobody's address), 7 a complete record cut short by 1-3 bytes (malformed)
 	Addr    int    `json:"addr"`    // 0 own, 1 own in the other byte form (4 vs 16 bytes), 2 other IP, 3 no address
 	Port    int    `json:"port"`    // 0 own, 1 own+1, 2 zero, 3 own-1
 	Garbage []byte `json:"garbage"` // kind 2
@@ -59,7 +59,7 @@ func genC36(t *rapid.T) c36Case {
 	for i := 0; i < n; i++ {
 		r := c36Reply{
 			From: rapid.OneOf(rapid.Just(i), rapid.IntRange(0, 11)).Draw(t, "from"),
-			Kind: rapid.SampledFrom([]int{0, 0, 0, 0, 0, 5, 5, 1, 2, 3, 4}).Draw(t, "kind"),
+			Kind: rapid.SampledFrom([]int{0, 0, 0, 0, 0, 5, 5, 1, 2, 3, 4, 6, 6, 7}).Draw(t, "kind"),
 			Addr: rapid.SampledFrom(ownBias).Draw(t, "addr"),
 			Port: rapid.SampledFrom([]int{0, 0, 0, 0, 0, 0, 1, 2, 3}).Draw(t, "port"),
 		}
@@ -191,6 +191,13 @@ func bodyC36(c c36Case, x *vkit.Ctx) {
 			payload = append([]byte{serf.VerifMessageConflictResponseType}, r.Garbage...)
 		case 3:
 			payload = []byte{}
+		case 6:
+			// a well-formed record with fewer fields: it names the node, but no
+			// address and no port (every reply is judged on what IT says)
+			payload = mustEncode(serf.VerifMessageConflictResponseType, &struct{ Name string }{self})
+		case 7:
+			full := mustEncode(serf.VerifMessageConflictResponseType, &m)
+			payload = full[:len(full)-1-len(r.Garbage)%3]
 		case 5:
 			var ok bool
 			if payload, ok = genuine(m.Addr, m.Port); !ok {
